@@ -20,11 +20,12 @@ Clause-by-clause map (property sentence → theorem; PROVED = kernel-checked ∀
      (document, ranges) is the one seen over the concatenation.  `char_split_witness`: without the hypothesis the
      streams differ (finding C13-char-splitting-range-boundary).  The theorem is about `rangedChars`, the character
      logic of the port over ranges (skip loop, EOF, decode from the unclipped document, advance); that the full
-     port (`advance`/`do_advance`, chunks, columns, fast path, range loop, EOF) produces that sequence from any state
-     inside a range with a decoded look-ahead is PROVED for every range list and every `WholeChar` chunking —
-     `Round11.lean`: `lexChars_eq_rangedChars`, `advance_step`, `lexStream_eq_rangedChars_partial`; that
-     `set_input`/`start` (goto, BOM skip) reach such a state is still checked by the driver on every real case
-     (`model:rangedChars=lexStream`), OPEN as a theorem (`findRange_skipL` is its first step).
+     port (`set_included_ranges`, `set_input`/`goto`, `start`, `advance`/`do_advance`: chunks, columns, fast path, range
+     loop, EOF) produces that sequence is PROVED for every accepted non-empty range list, every `WholeChar` chunking
+     and every text that does not begin with a byte-order mark — `Round11.lean`/`Round11b.lean`:
+     `lexChars_eq_rangedChars`, `advance_step`, `lexStream_eq_rangedChars`; `port_stream_concat` states clause 1 with
+     the full port on both sides (ranged run = run over the concatenation with the default range).  Texts beginning
+     with a BOM: `lexStream_eq_rangedChars_partial` + the driver's per-case check (`model:rangedChars=lexStream`).
    * PROVED, tree level, for DETERMINISTIC parsing only — `TreeLevel.lean`: `driver_concat` (any lex-mode-driven
      lex/parse loop that reads the text only through the observation sequence ends in the same parser state) and
      `tree_shape_concat` (w-incr's LR machine with extras, `C01.LR` + `steps_skel`: token lists with the same
